@@ -489,3 +489,47 @@ func (s *Script) sliceFacts(hyp, goal string, facts []factRec) []factRec {
 	}
 	return out
 }
+
+// constVal folds a term to an integer constant when it is a literal, a defined symbol whose body
+// folds, or a sum/difference of such terms.
+func (s *Script) constVal(t string) (int64, bool) {
+	t = strings.TrimSpace(t)
+	if t == "" {
+		return 0, false
+	}
+	if isLiteral(t) {
+		if len(t) > 18 {
+			return 0, false
+		}
+		return int64(atoi(t)), true
+	}
+	if d, ok := s.defs[t]; ok {
+		if d.Body == "" {
+			return 0, false
+		}
+		return s.constVal(d.Body)
+	}
+	args, op := sexprArgs(t)
+	if (op == "+" || op == "-") && len(args) >= 1 {
+		acc, ok := s.constVal(args[0])
+		if !ok {
+			return 0, false
+		}
+		if op == "-" && len(args) == 1 {
+			return -acc, true
+		}
+		for _, a := range args[1:] {
+			v, ok := s.constVal(a)
+			if !ok {
+				return 0, false
+			}
+			if op == "+" {
+				acc += v
+			} else {
+				acc -= v
+			}
+		}
+		return acc, true
+	}
+	return 0, false
+}
